@@ -52,7 +52,7 @@ U32Of(n) == <<n \div 65536, n % 65536>>                \* 0 <= n < 2^31
 NatOf(v) == v[1] * 65536 + v[2]                        \* only for v[1] < 32768
 
 B128Push(acc, septet) ==
-  <<(acc[1] * 128) % 65536 + (acc[2] * 128) \div 65536, (acc[2] * 128) % 65536 + septet>>
+  <<((acc[1] * 128) % 65536) + ((acc[2] * 128) \div 65536), ((acc[2] * 128) % 65536) + septet>>
 B128Fail == [ok |-> FALSE, hi |-> 0, lo |-> 0, used |-> 0]
 
 RECURSIVE B128Step(_, _, _, _)
@@ -187,7 +187,7 @@ TripletPick(dx, dy, policy) ==
 (* 5.1  bboxBitmap: 4 * floor((numGlyphs + 31) / 32) bytes, glyph 0 is the *)
 (* most significant bit of the first byte.                                 *)
 BitmapLen(n) == 4 * ((n + 31) \div 32)
-BitmapGet(bm, g) == IF g \div 8 < Len(bm) THEN (bm[g \div 8 + 1] \div 2 ^ (7 - g % 8)) % 2 ELSE -1
+BitmapGet(bm, g) == IF g \div 8 < Len(bm) THEN (bm[g \div 8 + 1] \div 2 ^ (7 - (g % 8))) % 2 ELSE -1
 BitmapBytes(bits) ==          \* bits: sequence of 0/1, one per glyph
   [k \in 1 .. BitmapLen(Len(bits)) |->
      LET B(j) == IF 8 * (k - 1) + j + 1 <= Len(bits) THEN bits[8 * (k - 1) + j + 1] ELSE 0 IN
